@@ -162,6 +162,14 @@ Fixpoint omap {A B} (f:A -> outcome B) (l:list A) : outcome (list B) :=
   | x :: t => match f x, omap f t with Ok y, Ok r => Ok (y :: r) | Raises k, _ => Raises k | _, Raises k => Raises k end
   end.
 Definition types_of (l:list (Z * list xev)) : list MES := flat_map (fun m => map x_type (snd m)) l.
+(* IsoformMatch: a list given to the constructor loses its `none` events; add_subclassification replaces a lone none/undefined event *)
+Definition is_none (e:xev) : bool := MES_eqb (x_type e) MES_none_.
+Definition drop_none (l:list xev) : list xev := filter (fun e => negb (is_none e)) l.
+Definition add_sub (l:list xev) (e:xev) : list xev :=
+  match l with
+  | [x] => if is_none x || MES_eqb (x_type x) MES_undefined then [e] else l ++ [e]
+  | _ => l ++ [e]
+  end.
 
 (* the result of assign_to_isoform: assignment type and, per reported isoform (id order), the event types of its match *)
 Definition result := (RAT * list (Z * list MES))%type.
@@ -208,7 +216,7 @@ Definition match_consistent (g:gene) (ri rs:rprof) (r:read) : outcome (option re
                   | Raises k => Raises k
                   | Ok ev => match elong g rs r t with
                              | Raises k => Raises k
-                             | Ok el => match verify r t (xe ev 0 :: el) with Ok evs => Ok (id, evs) | Raises k => Raises k end
+                             | Ok el => match verify r t (fold_left add_sub el [xe ev 0]) with Ok evs => Ok (id, evs) | Raises k => Raises k end
                              end
                   end) ids with
     | Raises k => Raises k
@@ -259,11 +267,11 @@ Definition match_inconsistent (g:gene) (ri rs:rprof) (r:read) : outcome result :
         | Ok best =>
           let sel := filter (fun m => existsb (Z.eqb (fst m)) best) rms in
           let ty := classify (1 <? Z.of_nat (length best)) (types_of sel) in
-          if (length (rp ri) =? 0)%nat || rmem ty RAT_is_inconsistent then Ok (report ty sel)
+          if (length (rp ri) =? 0)%nat || rmem ty RAT_is_inconsistent then Ok (report ty (map (fun m => (fst m, drop_none (snd m))) sel))
           else
             (* create_consistent_matches: the splice-match event followed by the events other than `none` *)
             match omap (fun m => match splice_match_event ri r (find_iso g (fst m)) with
-                                 | Ok ev => Ok (fst m, xe ev 0 :: filter (fun e => negb (MES_eqb (x_type e) MES_none_)) (snd m))
+                                 | Ok ev => Ok (fst m, fold_left add_sub (drop_none (snd m)) [xe ev 0])
                                  | Raises k => Raises k end) sel with
             | Ok ms => Ok (report ty ms)
             | Raises k => Raises k
